@@ -542,6 +542,33 @@ func main() {
 				os.Exit(1)
 			}
 		}
+	case "evm":
+		fs := flag.NewFlagSet("evm", flag.ExitOnError)
+		driver := fs.String("driver", "", "path to olpdriver")
+		seed := fs.Uint64("seed", 1, "seed")
+		cases := fs.Int("cases", 200, "interface-op cases")
+		maxops := fs.Int("maxops", 40, "max ops per case")
+		progs := fs.Int("programs", 50, "bytecode program cases")
+		out := fs.String("out", "", "result json")
+		replay := fs.String("replay", "", "replay one ops file")
+		corpus := fs.String("corpus", "", "corpus dir")
+		fs.Parse(os.Args[2:])
+		stdout := apph.SilenceAppLogs()
+		if *replay != "" {
+			rc := apph.ReplayEvm(*driver, *replay, stdout)
+			apph.Cleanup()
+			os.Exit(rc)
+		}
+		res, err := apph.RunEvm(apph.EvmOptions{Driver: *driver, Seed: *seed, OpCases: *cases, MaxOps: *maxops, Programs: *progs, Corpus: *corpus})
+		apph.Cleanup()
+		if err != nil {
+			fmt.Fprintln(stdout, "olh evm:", err)
+			os.Exit(2)
+		}
+		if *out != "" {
+			kv.WriteResult(*out, res)
+		}
+		fmt.Fprintln(stdout, apph.EvSummary(res))
 	default:
 		fmt.Fprintln(os.Stderr, "unknown engine", os.Args[1])
 		os.Exit(2)
